@@ -61,6 +61,79 @@ def run(prop, path):
         still = bool(bad)
         import shutil
         shutil.rmtree(d, ignore_errors=True)
+    sig = rep.get('signature') or {}
+    kind = sig.get('kind')
+    if kind in ('value-mismatch', 'node-contract') and prop == 'C11':
+        # the single case again: dump its tree from the current tree of /repo and let TLC judge it
+        import search_checks
+        build_harness()
+        d = fresh_dir('replay-%d' % os.getpid())
+        search_checks.write_cases(os.path.join(d, 'c.ndjson'), [{'id': 0, 'fen': sig['fen'], 'hist': sig.get('hist', []), 'depth': sig['depth']}])
+        if kind == 'value-mismatch':
+            run_harness(['tree-dump', '--cases', os.path.join(d, 'c.ndjson'), '--outdir', os.path.join(d, 't'), '--cap', 400000], timeout=3000)
+            f = os.path.join(d, 't', 'tree-0.ndjson')
+            r = search_checks.validate_search(f, 'C11', big=True) if os.path.exists(f) else {'status': 'error', 'detail': 'tree too large'}
+        else:
+            f = os.path.join(d, 'steps.ndjson')
+            run_harness(['search-steps', '--cases', os.path.join(d, 'c.ndjson'), '--out', f, '--cap', 400000], timeout=3000)
+            r = search_checks.validate_search(f, 'STEP', big=True)
+        print('the case on the current tree: %s %s' % (r['status'], {k: r[k] for k in ('fails', 'got', 'want') if k in r}))
+        if r['status'] == 'error':
+            return 2
+        still = r['status'] == 'reject'
+    elif kind == 'mate-level' and prop == 'C12':
+        import search_checks
+        build_harness()
+        d = fresh_dir('replay-%d' % os.getpid())
+        search_checks.write_cases(os.path.join(d, 'c.ndjson'), [{'id': 0, 'fen': sig['fen'], 'pre': sig.get('pre', []), 'depth': sig['depth']}])
+        f = os.path.join(d, 'm.ndjson')
+        run_harness(['mate-facts', '--cases', os.path.join(d, 'c.ndjson'), '--out', f], timeout=3000)
+        r = search_checks.validate_search(f, 'C12')
+        print('the case on the current tree: %s %s' % (r['status'], r.get('fails')))
+        if r['status'] == 'error':
+            return 2
+        still = r['status'] == 'reject'
+    elif prop == 'C06':
+        import attack_checks
+        rc = attack_checks.run('C06', 'quick', rep.get('seed', 1))
+        return rc
+    elif kind in ('session-rejected', 'e2e-rejected') and prop in ('C09', 'C10', 'C14', 'C15') and still is not False:
+        # drive the recorded lines through the current engine again (same order, answers awaited where the GUI would)
+        import uci_checks
+        from engine import Engine, write_batch
+        build_harness()
+        sends = sig.get('sends', [])
+        e = Engine()
+        try:
+            for i, line in enumerate(sends):
+                toks = line.split()
+                cls = 'go_maybe' if (prop == 'C15' and toks and toks[0] == 'go') else None
+                e.send(line, cls=cls) if cls else e.send(line)
+                nxt = sends[i + 1] if i + 1 < len(sends) else ''
+                if toks and toks[0] == 'go' and not nxt.startswith('stop') and prop != 'C15':
+                    if e.wait_for('bestmove', 20000) is None:
+                        e.log({'ev': 'deadline', 'what': 'bestmove', 't': e.now()})
+                        break
+                elif toks and toks[0] == 'stop':
+                    e.wait_for('bestmove', 2500)
+                elif toks and toks[0] == 'isready':
+                    if e.wait_for('readyok', 2500) is None:
+                        e.log({'ev': 'deadline', 'what': 'readyok', 't': e.now()})
+                        break
+            e.send('quit')
+            e.wait_exit(2500)
+        finally:
+            e.kill()
+        d = fresh_dir('replay-%d' % os.getpid())
+        f = os.path.join(d, 'again.ndjson')
+        write_batch(f, [e.events])
+        r = uci_checks.validate_uci(f, mode or prop)
+        print('the same lines on the current tree: %s' % r['status'])
+        for x in uci_checks.describe(e.events)[-12:]:
+            print('   ' + x[:160])
+        if r['status'] == 'error':
+            return 2
+        still = r['status'] == 'reject'
     if still is None:
         print('nothing to re-run for this replay file; see its contents')
         return 0
